@@ -271,12 +271,16 @@ namespace bloch::runtime {
     int QasmSimulator::measure(int q) {
         BLOCH_VERIF_SIM_OP("measure", q, -1, 0.0);
         ensureQubitActive(q);
-        // Compute probability of |1>, sample, and collapse the state accordingly.
+        // Compute the weight of both branches, sample, and collapse the state accordingly.
         size_t bit = size_t{1} << q;
+        double p0 = 0;
         double p1 = 0;
-        for (size_t i = 0; i < m_state.size(); ++i)
+        for (size_t i = 0; i < m_state.size(); ++i) {
             if (i & bit)
                 p1 += std::norm(m_state[i]);
+            else
+                p0 += std::norm(m_state[i]);
+        }
         std::uniform_real_distribution<double> dist(0.0, 1.0);
         double r = dist(rng);
 #ifdef BLOCH_VERIF
@@ -290,10 +294,17 @@ namespace bloch::runtime {
         }
 #endif
         int res = r < p1 ? 1 : 0;
+        // Never report an outcome without support (p1 can round to just below 1 while the
+        // |0> branch is exactly empty, and vice versa), and normalise by the weight actually
+        // found in the chosen branch rather than by 1 - p1.
+        if (res == 0 && p0 == 0.0 && p1 > 0.0)
+            res = 1;
+        else if (res == 1 && p1 == 0.0)
+            res = 0;
 #ifdef BLOCH_VERIF
         verifScope.ev.outcome = res;
 #endif
-        double norm = std::sqrt(res ? p1 : 1 - p1);
+        double norm = std::sqrt(res ? p1 : p0);
         for (size_t i = 0; i < m_state.size(); ++i) {
             if (((i & bit) ? 1 : 0) != res)
                 m_state[i] = 0;
